@@ -147,6 +147,12 @@ pub(crate) struct CoreInner {
 	/// Visible sequence number - the highest sequence number that is visible to readers.
 	/// Shared with CommitPipeline for coordinated updates.
 	pub(crate) visible_seq_num: Arc<AtomicU64>,
+
+	/// Serialises memtable flushes. The background flush task, `create_checkpoint` and
+	/// shutdown all pick the oldest immutable memtable and write it under its table id;
+	/// two of them doing so at once would write the same SST file twice (truncating a
+	/// table the manifest already names) and install it twice.
+	flush_lock: Mutex<()>,
 }
 
 impl CoreInner {
@@ -213,6 +219,7 @@ impl CoreInner {
 			lockfile: Mutex::new(lockfile),
 			error_handler: Arc::new(BackgroundErrorHandler::new()),
 			visible_seq_num,
+			flush_lock: Mutex::new(()),
 		})
 	}
 
@@ -454,6 +461,9 @@ impl CoreInner {
 	/// 2. Flushes it to SST via flush_immutable_to_sst (which also removes from queue)
 	/// 3. Schedules async WAL cleanup
 	fn flush_oldest_immutable_to_sst(&self) -> Result<Option<Arc<Table>>> {
+		// One flusher at a time: the entry is picked, written and removed under this lock
+		let _flush_guard = self.flush_lock.lock()?;
+
 		// Get the oldest immutable entry (clone to release lock before I/O)
 		let entry = {
 			let guard = self.immutable_memtables.read()?;
@@ -646,6 +656,8 @@ impl CoreInner {
 	/// persisted.
 	fn flush_all_memtables_for_shutdown(&self) -> Result<()> {
 		log::info!("Flushing all memtables for shutdown...");
+
+		let _flush_guard = self.flush_lock.lock()?;
 
 		// STEP 1: Flush ALL immutable memtables FIRST (older data, lower table_ids)
 		// We need to collect them first to avoid holding the lock during I/O
